@@ -66,6 +66,7 @@ def run(chk):
     chk.rule("R07.5", "recurrence coefficients are the orthonormal ones; the three-term recurrence has the stated form", 14)
     chk.rule("R07.6", "expand_coeffs writes c(l,m) and, for m != 0, c(l,-m) = (-1)^m conj c(l,m)", 4)
     chk.rule("R07.7", "quadrature plumbing: one FFT norm, fft/ifft pairing, weights rescaled to 4 pi, phi grid, ntheta >= L+1", 8)
+    chk.rule("R07.8", "transform results are freshly allocated: no public SHT method returns (a view of) an instance work array", 8)
     K = kernels(chk, sht, pyx, al)
     if chk.want("R07.1"):
         r07_1(chk, sht, pyx, K)
@@ -81,6 +82,8 @@ def run(chk):
         r07_6(chk, K)
     if chk.want("R07.7"):
         r07_7(chk, sht)
+    if chk.want("R07.8"):
+        r07_8(chk, sht)
     chk.assume("the nphi rounding loop (data-dependent while), Gauss-Legendre nodes/weights and floating-point exactness are not decided")
     chk.assume("loops are taken to execute at least zero times with hi >= lo (closed-form summation of running counters)")
     chk.assume("scipy fft/ifft with the same norm are mutual inverses (library contract)")
@@ -609,3 +612,22 @@ def r07_7(chk, sht):
             break
     chk.ob("R07.7", SHT, "SHT.__init__", "the default ntheta is lmax + 1 rounded up (never down), so ntheta >= L + 1", ok,
            expected="chain of round-up steps from self.lmax + 1", found=f"{ntheta} (steps: {steps})")
+
+
+# ------------------------------------------------------------------------------------------------ R07.8
+def r07_8(chk, sht):
+    """A second transform must not overwrite the result of the first (linearity, round trips and Parseval all compare two results)."""
+    from ..effects import alias_path
+    for fn in sht.methods("SHT"):
+        if fn.name.startswith("__") or sht.is_property(fn):
+            continue
+        ev = sht.ev(f"SHT.{fn.name}")
+        vals = [r for r in ev.returns if r.value is not None]
+        if not vals:
+            continue
+        chk.saw(SHT, f"SHT.{fn.name}")
+        al = [(r, alias_path(r.value)) for r in vals]
+        bad = [(r, a) for r, a in al if a is not None]
+        chk.ob("R07.8", SHT, f"SHT.{fn.name}", "the returned array is not an instance attribute (work array) or a view of one", not bad,
+               node=bad[0][0].node if bad else fn, fingerprint="fresh", expected="a newly allocated result per call",
+               found=f"returns self.{bad[0][1]}: {str(bad[0][0].value)[:100]}" if bad else None)
